@@ -1557,6 +1557,9 @@ def _inline_type_aliases(trees: Dict[str, ast.Module]) -> int:
 
 def canonicalise(trees: Dict[str, ast.Module]) -> Dict[str, str]:
     """rename renamed private anchors back (in the trees); returns {canonical name: name used in this tree}"""
+    from .matchlower import lower_matches
+
+    lower_matches(trees)  # `match` statements are read as the if / elif chains they abbreviate
     for t in trees.values():
         if any(isinstance(x, ast.Return) and isinstance(x.value, ast.IfExp) for x in ast.walk(t)):
             _SplitIfExpReturn().visit(t)
